@@ -77,6 +77,18 @@ func selfExe() string {
 type chunk struct {
 	seed     int64
 	from, to int
+	race     bool // executed by the race-detector build (Mode B)
+}
+
+func raceBin() string { return os.Getenv("VSIM_RACE_BIN") }
+
+// exeFor returns the binary and extra environment for a normal or a race-mode execution.
+func exeFor(race bool, tmp string) (string, []string) {
+	if race && raceBin() != "" {
+		base := filepath.Join(tmp, "racelog")
+		return raceBin(), []string{"GORACE=halt_on_error=0 log_path=" + base, "VSIM_RACELOG=" + base}
+	}
+	return selfExe(), nil
 }
 
 type chunkResult struct {
@@ -123,8 +135,9 @@ func runChunks(prop string, chunks []chunk, tmp string, deadline time.Time, hash
 				if hashes {
 					args = append(args, "-hashes")
 				}
-				cmd := exec.Command(selfExe(), args...)
-				cmd.Env = append(os.Environ(), fmt.Sprintf("GOMAXPROCS=%d", gomaxprocs))
+				exe, extra := exeFor(c.race, tmp)
+				cmd := exec.Command(exe, args...)
+				cmd.Env = append(append(os.Environ(), fmt.Sprintf("GOMAXPROCS=%d", gomaxprocs)), extra...)
 				var eb bytes.Buffer
 				cmd.Stderr = &eb
 				err := cmd.Run()
@@ -156,7 +169,7 @@ func runChunks(prop string, chunks []chunk, tmp string, deadline time.Time, hash
 				results = append(results, r)
 				if r.crash && r.curRun >= c.from && r.curRun+1 < c.to {
 					// the worker died in the middle of its range: the rest is still to be explored
-					chunks = append(chunks, chunk{c.seed, r.curRun + 1, c.to})
+					chunks = append(chunks, chunk{c.seed, r.curRun + 1, c.to, c.race})
 				}
 				mu.Unlock()
 			}
@@ -167,16 +180,19 @@ func runChunks(prop string, chunks []chunk, tmp string, deadline time.Time, hash
 }
 
 type evalResult struct {
-	rec     *runRecord
-	crashed bool
+	rec      *runRecord
+	crashed  bool
 	crashSig string
-	code    int
-	stderr  string
+	code     int
+	stderr   string
 }
 
 var crashRe = regexp.MustCompile(`(?m)^(panic: .*|fatal error: .*)$`)
 
 // evalTape runs one run in a fresh process: from a tape file when P/S given, else (seed, run).
+// evalRace makes evalTape use the race-detector build (set while a race-mode violation is handled).
+var evalRace bool
+
 func evalTape(prop string, seed int64, run int, P, S []int, useTape bool, trace bool) *evalResult {
 	args := []string{"run", "-prop", prop, "-seed", fmt.Sprint(seed), "-run", fmt.Sprint(run)}
 	var tf string
@@ -195,11 +211,25 @@ func evalTape(prop string, seed int64, run int, P, S []int, useTape bool, trace 
 	if trace {
 		args = append(args, "-trace")
 	}
-	cmd := exec.Command(selfExe(), args...)
-	cmd.Env = append(os.Environ(), "GOMAXPROCS=2")
+	rtmp := ""
+	exe, extra := selfExe(), []string(nil)
+	if evalRace {
+		rtmp, _ = os.MkdirTemp("", "vsim-race-")
+		defer os.RemoveAll(rtmp)
+		exe, extra = exeFor(true, rtmp)
+	}
+	cmd := exec.Command(exe, args...)
+	cmd.Env = append(append(os.Environ(), "GOMAXPROCS=2"), extra...)
 	var ob, eb bytes.Buffer
 	cmd.Stdout, cmd.Stderr = &ob, &eb
+	// a candidate that does not finish within 90 s counts as "does not reproduce"
+	tm := time.AfterFunc(90*time.Second, func() {
+		if cmd.Process != nil {
+			cmd.Process.Kill()
+		}
+	})
 	err := cmd.Run()
+	tm.Stop()
 	r := &evalResult{}
 	if ee, ok := err.(*exec.ExitError); ok {
 		r.code = ee.ExitCode()
@@ -392,6 +422,7 @@ type replayFile struct {
 	Stats     map[string]int `json:"stats,omitempty"`
 	Shrink    map[string]int `json:"shrink"`
 	Note      string         `json:"note"`
+	Race      bool           `json:"race_mode,omitempty"` // found and replayed by the race-detector build
 }
 
 // replayMain re-executes a replay file in a fresh process and checks that class and trace
@@ -405,6 +436,11 @@ func replayMain(file string) int {
 	var rf replayFile
 	if err := json.Unmarshal(b, &rf); err != nil {
 		fmt.Fprintln(os.Stderr, err)
+		return 2
+	}
+	evalRace = rf.Race
+	if rf.Race && raceBin() == "" {
+		fmt.Println("this replay needs the race-detector build: run it through /verif/run.sh replay <file>")
 		return 2
 	}
 	var r *evalResult
@@ -483,12 +519,40 @@ func checkMain(prop, tier string, seed int64, runsOverride int) int {
 			if b > nRuns {
 				b = nRuns
 			}
-			chunks = append(chunks, chunk{sd, a, b})
+			chunks = append(chunks, chunk{seed: sd, from: a, to: b})
+		}
+	}
+	// Mode B: additional runs by the race-detector build (their own run indices, far away
+	// from the ordinary ones, so that a replay knows which build it needs)
+	raceRuns := p.RaceQuick
+	if tier == "thorough" {
+		raceRuns = p.RaceThorough
+	}
+	if v := os.Getenv("VERIF_RACE_RUNS"); v != "" {
+		fmt.Sscan(v, &raceRuns)
+	}
+	if raceRuns > 0 && raceBin() == "" {
+		fmt.Println("INFRA: this check needs the race-detector build (VSIM_RACE_BIN); run it through /verif/run.sh")
+		return 2
+	}
+	const raceBase = 10000000
+	for _, sd := range seeds {
+		rs := raceRuns / 24
+		if rs < 10 {
+			rs = 10
+		}
+		for a := 0; a < raceRuns; a += rs {
+			b := a + rs
+			if b > raceRuns {
+				b = raceRuns
+			}
+			chunks = append(chunks, chunk{seed: sd, from: raceBase + a, to: raceBase + b, race: true})
 		}
 	}
 	results := runChunks(prop, chunks, tmp, start.Add(cap), false, 2)
 
 	agg := &workerOut{Stats: map[string]int{}, Policies: map[string]int{}, Plans: map[string]int{}}
+	raceDone := 0
 	pairs := map[string]bool{}
 	var viols []*runRecord
 	var infra []string
@@ -500,6 +564,9 @@ func checkMain(prop, tier string, seed int64, runsOverride int) int {
 		}
 		w := r.w
 		agg.Runs += w.Runs
+		if r.c.race {
+			raceDone += w.Runs
+		}
 		agg.Nontrivial += w.Nontrivial
 		agg.Steps += w.Steps
 		agg.Choices += w.Choices
@@ -535,6 +602,7 @@ func checkMain(prop, tier string, seed int64, runsOverride int) int {
 		count  int
 		known  *knownFinding
 		byTape bool
+		race   bool
 	}
 	cases := map[string]*vcase{}
 	for _, c := range crashes {
@@ -542,6 +610,7 @@ func checkMain(prop, tier string, seed int64, runsOverride int) int {
 			infra = append(infra, fmt.Sprintf("worker for seed=%d runs [%d,%d) died (exit %d) at run %d: %s", c.c.seed, c.c.from, c.c.to, c.code, c.curRun, tail(c.stderr, 800)))
 			continue
 		}
+		evalRace = c.c.race
 		r := evalTape(prop, c.c.seed, c.curRun, nil, nil, false, false)
 		if r.crashed {
 			cl := "crash:" + r.crashSig
@@ -576,6 +645,7 @@ func checkMain(prop, tier string, seed int64, runsOverride int) int {
 			if rec.P != nil && (c.rec == nil || len(rec.P)+len(rec.S) < len(c.rec.P)+len(c.rec.S)) {
 				c.rec = rec
 				c.byTape = true
+				c.race = rec.Run >= raceBase
 			}
 		}
 	}
@@ -624,6 +694,7 @@ func checkMain(prop, tier string, seed int64, runsOverride int) int {
 			continue
 		}
 		origP, origS := len(P), len(S)
+		evalRace = c.race
 		mp, ms, evals := shrink(prop, cl, P, S, shrinkBudget)
 		// replay in fresh processes: must reproduce class and trace hash exactly
 		r1, exact, hits := confirm(prop, c.rec, cl, mp, ms)
@@ -642,7 +713,7 @@ func checkMain(prop, tier string, seed int64, runsOverride int) int {
 		if !exact {
 			flaky = fmt.Sprintf("REPLAY NOT EXACT: reproduced in %d of %d fresh-process replays; the code under test makes a choice the simulator does not control (e.g. a select with several ready cases). ", hits, confirmTries)
 		}
-		rf := &replayFile{Property: prop, Engine: p.Engine, Seed: c.rec.Seed, Run: c.rec.Run, Class: cl, P: mp, S: ms,
+		rf := &replayFile{Property: prop, Engine: p.Engine, Seed: c.rec.Seed, Run: c.rec.Run, Class: cl, P: mp, S: ms, Race: c.race,
 			Shrink: map[string]int{"orig_plan_draws": origP, "orig_sched_draws": origS, "plan_draws": len(mp), "sched_draws": len(ms), "evaluations": evals},
 			Note:   flaky + "replay: /verif/run.sh replay <this file>"}
 		if r1.rec != nil {
@@ -671,30 +742,31 @@ func checkMain(prop, tier string, seed int64, runsOverride int) int {
 	ev := map[string]any{
 		"property_id": prop, "tier": tier, "seed": seed, "level": "exploration", "wall_s": wall, "violations": nViol,
 		"coverage": map[string]any{
-			"evaluations":         agg.Runs,
-			"distinct_nontrivial": len(pairs),
-			"rule":                p.Rule,
-			"samples":             agg.Samples,
-			"seeds":               seeds,
-			"nontrivial_runs":     agg.Nontrivial,
-			"distinct_plans":      len(agg.Plans),
+			"evaluations":                agg.Runs,
+			"distinct_nontrivial":        len(pairs),
+			"rule":                       p.Rule,
+			"samples":                    agg.Samples,
+			"seeds":                      seeds,
+			"nontrivial_runs":            agg.Nontrivial,
+			"distinct_plans":             len(agg.Plans),
 			"distinct_schedules_measure": "distinct (plan hash, sequence of (picked index/number of candidates) at every step with >=2 candidates)",
-			"scheduler_steps":     agg.Steps,
-			"choice_points":       agg.Choices,
-			"simulated_time":      "eino has no clock in the code these properties anchor; simulated time = scheduler steps",
-			"runs_per_hour":       int(float64(agg.Runs) / wall * 3600),
-			"seeds_per_hour":      float64(len(seeds)) / wall * 3600,
-			"quiescence_snapshots": agg.Snapshots,
-			"policies":            agg.Policies,
-			"faults_and_probes":   agg.Stats,
-			"fault_kinds":         p.Faults,
-			"real_components":     p.Real,
-			"stub_components":     p.Stub,
-			"engine":              p.Engine,
-			"mode":                "A (channel parking; race detector not informative)",
-			"known_findings_seen": len(knownSeen),
-			"infra_problems":      len(infra),
-			"workers":             workerCount(),
+			"scheduler_steps":            agg.Steps,
+			"choice_points":              agg.Choices,
+			"simulated_time":             "eino has no clock in the code these properties anchor; simulated time = scheduler steps",
+			"runs_per_hour":              int(float64(agg.Runs) / wall * 3600),
+			"seeds_per_hour":             float64(len(seeds)) / wall * 3600,
+			"quiescence_snapshots":       agg.Snapshots,
+			"policies":                   agg.Policies,
+			"faults_and_probes":          agg.Stats,
+			"fault_kinds":                p.Faults,
+			"real_components":            p.Real,
+			"stub_components":            p.Stub,
+			"engine":                     p.Engine,
+			"mode":                       modeText(raceDone),
+			"race_detector_runs":         raceDone,
+			"known_findings_seen":        len(knownSeen),
+			"infra_problems":             len(infra),
+			"workers":                    workerCount(),
 		},
 		"assumptions": []string{
 			"sampling, not enumeration: a clean batch is evidence, not proof",
@@ -797,7 +869,7 @@ func dettestMain(prop string, seed int64, n, procs int) int {
 			per = 1
 		}
 		for i := 0; i < per; i++ {
-			chunks = append(chunks, chunk{seed, 0, n})
+			chunks = append(chunks, chunk{seed: seed, from: 0, to: n})
 		}
 		res := runChunks(prop, chunks, filepath.Join(tmp), time.Now().Add(time.Hour), true, g)
 		for _, r := range res {
@@ -828,4 +900,11 @@ func dettestMain(prop string, seed int64, n, procs int) int {
 		return 2
 	}
 	return 0
+}
+
+func modeText(raceRuns int) string {
+	if raceRuns > 0 {
+		return fmt.Sprintf("A (channel parking) for the ordinary runs; B for %d runs: race-detector build in which the kernel's own synchronisation is hidden from the detector (runtime.RaceDisable), so that two accesses the program itself does not order are reported although the simulator executed them one after the other; only reports whose two accesses are both in eino code count", raceRuns)
+	}
+	return "A (channel parking; the race detector would see every access ordered by the kernel)"
 }
